@@ -1,0 +1,117 @@
+//go:build verif
+
+package tls
+
+import (
+	"encoding/hex"
+	"io"
+	"strconv"
+	"strings"
+)
+
+// Verification hooks for property C29 (fingerprinted ClientHellos). Add-only; built with -tags verif.
+
+// ZVFingerprintMarshal runs the real (*ClientFingerprintConfiguration).marshal. marshal reads only
+// config.rand() (Config.Rand, or crypto/rand when nil) and config.ForceSuites.
+func ZVFingerprintMarshal(c *ClientFingerprintConfiguration, rand io.Reader, forceSuites bool) ([]byte, error) {
+	return c.marshal(&Config{Rand: rand, ForceSuites: forceSuites})
+}
+
+// ZVC29Tables dumps the tables the CheckImplemented methods and marshal consult:
+// defaultCurvePreferences, supportedSKXSignatureAlgorithms (as hash<<8|signature) and the ids of
+// implementedCipherSuites, each in table order.
+func ZVC29Tables() (curves []uint16, sigAlgs []uint16, suites []uint16) {
+	for _, c := range defaultCurvePreferences {
+		curves = append(curves, uint16(c))
+	}
+	for _, s := range supportedSKXSignatureAlgorithms {
+		sigAlgs = append(sigAlgs, uint16(s.Hash)<<8|uint16(s.Signature))
+	}
+	for _, s := range implementedCipherSuites {
+		suites = append(suites, s.id)
+	}
+	return
+}
+
+func zvHex(b []byte) string {
+	if len(b) == 0 {
+		return "-"
+	}
+	return hex.EncodeToString(b)
+}
+
+func zvBool(b bool) string {
+	if b {
+		return "1"
+	}
+	return "0"
+}
+
+func zvList(l []string) string {
+	if len(l) == 0 {
+		return "-"
+	}
+	return strings.Join(l, ",")
+}
+
+func zvU16s[T ~uint16](l []T) string {
+	var s []string
+	for _, x := range l {
+		s = append(s, strconv.Itoa(int(x)))
+	}
+	return zvList(s)
+}
+
+// ZVClientHelloUnmarshal runs the real (*clientHelloMsg).unmarshal and dumps every field that the
+// parser fills from the wire (all but raw, sctEnabled, unknownExtensions) in struct order:
+// name=value;… ; byte strings and strings lower-case hex ("-" when empty), integers decimal, bools 0/1,
+// lists joined by "," ("-" when empty), struct elements with subfields joined by ":".
+func ZVClientHelloUnmarshal(data []byte) (dump string, ok bool) {
+	m := new(clientHelloMsg)
+	if !m.unmarshal(data) {
+		return "", false
+	}
+	var alpn, ks, ids, binders []string
+	for _, p := range m.alpnProtocols {
+		alpn = append(alpn, zvHex([]byte(p)))
+	}
+	for _, k := range m.keyShares {
+		ks = append(ks, strconv.Itoa(int(k.group))+":"+zvHex(k.data))
+	}
+	for _, p := range m.pskIdentities {
+		ids = append(ids, zvHex(p.label)+":"+strconv.FormatUint(uint64(p.obfuscatedTicketAge), 10))
+	}
+	for _, b := range m.pskBinders {
+		binders = append(binders, zvHex(b))
+	}
+	f := []string{
+		"vers=" + strconv.Itoa(int(m.vers)),
+		"random=" + zvHex(m.random),
+		"sessionId=" + zvHex(m.sessionId),
+		"cipherSuites=" + zvU16s(m.cipherSuites),
+		"compressionMethods=" + zvHex(m.compressionMethods),
+		"serverName=" + zvHex([]byte(m.serverName)),
+		"ocspStapling=" + zvBool(m.ocspStapling),
+		"supportedCurves=" + zvU16s(m.supportedCurves),
+		"supportedPoints=" + zvHex(m.supportedPoints),
+		"ticketSupported=" + zvBool(m.ticketSupported),
+		"sessionTicket=" + zvHex(m.sessionTicket),
+		"supportedSignatureAlgorithms=" + zvU16s(m.supportedSignatureAlgorithms),
+		"supportedSignatureAlgorithmsCert=" + zvU16s(m.supportedSignatureAlgorithmsCert),
+		"secureRenegotiationSupported=" + zvBool(m.secureRenegotiationSupported),
+		"secureRenegotiation=" + zvHex(m.secureRenegotiation),
+		"extendedRandomEnabled=" + zvBool(m.extendedRandomEnabled),
+		"extendedRandom=" + zvHex(m.extendedRandom),
+		"extendedMasterSecret=" + zvBool(m.extendedMasterSecret),
+		"alpnProtocols=" + zvList(alpn),
+		"scts=" + zvBool(m.scts),
+		"supportedVersions=" + zvU16s(m.supportedVersions),
+		"cookie=" + zvHex(m.cookie),
+		"keyShares=" + zvList(ks),
+		"earlyData=" + zvBool(m.earlyData),
+		"pskModes=" + zvHex(m.pskModes),
+		"pskIdentities=" + zvList(ids),
+		"pskBinders=" + zvList(binders),
+	}
+	return strings.Join(f, ";"), true
+}
